@@ -5,7 +5,7 @@ use itertools::Itertools;
 
 use crate as pdf;
 use crate::error::*;
-use crate::object::{Object, RcRef, Resolve, Stream};
+use crate::object::{Object, Ref, Resolve, Stream};
 use crate::primitive::{Primitive, Dictionary};
 use std::convert::{TryFrom, TryInto};
 use std::io::{Read, Write};
@@ -79,7 +79,9 @@ pub struct CCITTFaxDecodeParams {
 #[derive(Object, ObjectWrite, Debug, Clone, DataSize, DeepClone)]
 pub struct JBIG2DecodeParams {
     #[pdf(key="JBIG2Globals")]
-    pub globals: Option<RcRef<Stream<()>>>
+    // a reference, followed when the image is decoded: loading the globals while the stream
+    // dictionary is parsed makes a chain (or a DAG) of streams naming each other load recursively
+    pub globals: Option<Ref<Stream<()>>>
 }
 #[derive(Debug, Clone, DataSize, DeepClone)]
 pub enum StreamFilter {
